@@ -12,7 +12,7 @@ var knobsAll = Knobs{MinInst: 1, MaxInst: 5, MaxGroups: 2, LatFrac: 0.35, WatchD
 	LongH: true, NewObjects: true, MinHorizonH: 15, MaxHorizonH: 45}
 
 // knobsTerms: many terms per instance.
-var knobsTerms = Knobs{MinInst: 2, MaxInst: 5, LatFrac: 0.3, WatchDelayH: 1, Faults: true, Takeover: true, Stops: true, StopPhases: true, Ext: true,
+var knobsTerms = Knobs{MinInst: 2, MaxInst: 5, LatFrac: 0.3, WatchDelayH: 1, Faults: true, Takeover: true, Stops: true, StopPhases: true,
 	Conn: true, Health: true, Probes: true, Promote: true, NewObjects: true, MinHorizonH: 30, MaxHorizonH: 80}
 
 // knobsMutations: C01 - no outside writer premise is per mutation, so it may be present.
